@@ -26,7 +26,7 @@ fn contains_opaque(v: &RVal) -> bool {
 pub fn same_unordered(a: &RVal, b: &RVal) -> bool {
     match (a, b) {
         (RVal::Arr(x), RVal::Arr(y)) => x.len() == y.len() && x.iter().zip(y).all(|(p, q)| same_unordered(p, q)),
-        (RVal::Obj(x), RVal::Obj(y)) => x.len() == y.len() && x.iter().all(|(k, v)| y.iter().any(|(k2, v2)| rv::same(k, k2) && same_unordered(v, v2))),
+        (RVal::Obj(x), RVal::Obj(y)) => x.len() == y.len() && x.iter().all(|(k, v)| y.iter().any(|(k2, v2)| same_unordered(k, k2) && same_unordered(v, v2))),
         _ => rv::same(a, b),
     }
 }
